@@ -316,6 +316,14 @@ func Run(r *sim.R, prop string) {
 	t := r.T
 	e := &E{R: r, Prop: prop, G: &gen{r: r}}
 	r.Order = t.Weighted([]int{3, 2, 1}, "order-policy")
+	if t.Chance(1, 24, "top-level-unpacker") {
+		topUnpackerCase(r, prop)
+		return
+	}
+	if t.Chance(1, 24, "inline-field-with-policy") {
+		inlinePolicyCase(r, prop)
+		return
+	}
 	e.G.varexp = t.Chance(1, 3, "with-varexp")
 	e.G.custom = t.Chance(1, 6, "custom-tag-names")
 	if !e.G.custom && t.Chance(1, 6, "named-top-level") {
